@@ -99,10 +99,11 @@ Fixpoint hex (s : bytes) : bytes :=
 
 (* ---------- splitting ---------- *)
 
+(* [rev_append cur []] = [rev cur], in linear time and constant stack (case lines can be 10^5 bytes long) *)
 Fixpoint split_on_acc (sep : N) (s : bytes) (cur : bytes) : list bytes :=
   match s with
-  | [] => [rev cur]
-  | c :: s' => if c =? sep then rev cur :: split_on_acc sep s' [] else split_on_acc sep s' (c :: cur)
+  | [] => [rev_append cur []]
+  | c :: s' => if c =? sep then rev_append cur [] :: split_on_acc sep s' [] else split_on_acc sep s' (c :: cur)
   end.
 
 Definition split_on (sep : N) (s : bytes) : list bytes := split_on_acc sep s [].
